@@ -14,7 +14,6 @@ import (
 	"strconv"
 	"strings"
 	"sync"
-	"sync/atomic"
 	"time"
 )
 
@@ -201,8 +200,13 @@ func (db *DB) Put(key []byte, value []byte) error {
 	logRecord.Key = key
 	logRecord.Value = append(logRecord.Value, value...)
 
+	// 日志追加与对应的索引更新必须在同一临界区内完成
+	// 否则并发写同一 key 时, 索引的最终指向可能与日志中的先后顺序不一致
+	db.mu.Lock()
+	defer db.mu.Unlock()
+
 	// 将日志记录追加到当前活跃文件
-	pos, err := db.appendLogRecordWithLock(logRecord)
+	pos, err := db.appendLogRecord(logRecord)
 	if err != nil {
 		return err
 	}
@@ -210,7 +214,7 @@ func (db *DB) Put(key []byte, value []byte) error {
 	verifPoint("put.appended", 0)
 	// 更新索引, 并维护无效数据量
 	if oldPos := db.index.Put(key, pos); oldPos != nil {
-		atomic.AddInt64(&db.reclaimSize, int64(oldPos.Size))
+		db.reclaimSize += int64(oldPos.Size)
 	}
 
 	return nil
@@ -241,6 +245,10 @@ func (db *DB) Delete(key []byte) error {
 		return ErrKeyIsEmpty
 	}
 
+	// 存在性检查、日志追加与索引更新必须在同一临界区内完成
+	db.mu.Lock()
+	defer db.mu.Unlock()
+
 	if pos := db.index.Get(key); pos == nil {
 		return nil
 	}
@@ -253,18 +261,18 @@ func (db *DB) Delete(key []byte) error {
 	logRecord.Key = key
 	logRecord.Type = datafile.LogRecordDeleted
 
-	pos, err := db.appendLogRecordWithLock(logRecord)
+	pos, err := db.appendLogRecord(logRecord)
 	if err != nil {
 		return err
 	}
 	verifPoint("delete.appended", 0)
 	// 墓碑值本身可视为无效数据
-	atomic.AddInt64(&db.reclaimSize, int64(pos.Size))
+	db.reclaimSize += int64(pos.Size)
 
 	// 更新索引信息
 	oldPos := db.index.Delete(key)
 	if oldPos != nil {
-		atomic.AddInt64(&db.reclaimSize, int64(oldPos.Size))
+		db.reclaimSize += int64(oldPos.Size)
 	} else {
 		return ErrIndexUpdateFailed
 	}
